@@ -39,6 +39,8 @@ def cases(seed, tier):
         scripts = c02.gen_scripts(rng, rulesets, nticks, fire_p, async_p=rng.choice([0.35, 0.5, 0.65]), stop_p=0.15)
         ticks = c02.gen_ticks(rng, nticks, steps=(0, 1, 1, 2, 5))
         cid = "C06-%d-%d" % (seed, i)
+        if i % 4 == 1:
+            c02.dropin_noise(rng, rulesets, ticks, p=0.5)
         scn = c02.mk_scn(cid, {"rulesets": rulesets}, scripts, ticks, {"cgroups": cg})
         yield core.Case(cid, [scn], {"rulesets": nrs, "ticks": nticks})
 
@@ -55,7 +57,10 @@ def judge(case, results):
     if cr:
         v.bad("crash:" + cr[0], cr[1], cr[2])
         return v
-    viol, st = engine.check(scn["config"], res.events, live=live, nticks=len(scn["ticks"]))
+    viol, st = engine.check(scn["config"], res.events, live=live, nticks=len(scn["ticks"]), identity=False)
+    st["dropin_requests"] = sum(1 for e in res.events if e.get("ev") == "dropin")
+    st["dropin_adds_applied"] = sum(1 for e in res.events if e.get("ev") == "dropin_result" and e["op"] == "add" and e["ok"])
+    st["dropin_adds_rolled_back"] = sum(1 for e in res.events if e.get("ev") == "dropin_result" and e["op"] == "add" and not e["ok"])
     for prop, rule, disc, detail in viol:
         if prop in OWN or prop == "ANY":
             v.bad(rule, disc, detail)
